@@ -1,0 +1,36 @@
+//go:build verif
+
+package router
+
+import "net/netip"
+
+// VerifConnState is a read-only copy of one connection state entry.
+type VerifConnState struct {
+	LocalIP    netip.Addr
+	RemoteIP   netip.Addr
+	Protocol   uint8
+	LocalPort  uint16
+	RemotePort uint16
+	Inbound    bool
+	Status     uint32
+}
+
+// VerifConnStates returns a copy of the connection state table.
+func (r *Router) VerifConnStates() []VerifConnState {
+	r.connStatesLock.RLock()
+	defer r.connStatesLock.RUnlock()
+
+	out := make([]VerifConnState, 0, len(r.connStates))
+	for key, entry := range r.connStates {
+		out = append(out, VerifConnState{
+			LocalIP:    key.localIP,
+			RemoteIP:   key.remoteIP,
+			Protocol:   key.protocol,
+			LocalPort:  key.localPort,
+			RemotePort: key.remotePort,
+			Inbound:    entry.inbound,
+			Status:     entry.status.Load(),
+		})
+	}
+	return out
+}
